@@ -272,7 +272,26 @@ def gen_plan(rng):
             includes.append(includes[0])                                  # repeated include line
         if nested and rng.random() < 0.15:
             includes.append(spell(rng, posixpath.dirname(path), nested[0]["path"], fs=fs))   # second spelling
+        forward = None
+        if callees and len(callees[0]["params"]) >= 2 and rng.random() < 0.4:
+            # the enclosing template has the callee's parameter names and hands them on as
+            # bare symbols under a PERMUTATION of those names (theta={phi}, phi={theta}):
+            # a pure forwarding call whose name-to-name mapping is not the identity
+            inner = list(callees[0]["params"])
+            params = inner + [q for q in params if q not in inner][:1]
+            perm = list(inner)
+            while perm == inner:
+                rng.shuffle(perm)
+            forward = (callees[0]["name"], [[p_in, {"c": 0, "t": [[1, "p", p_out]]}] for p_in, p_out in zip(inner, perm)])
         body = gen_body(rng, fs, params, callees, modes_pool)
+        if forward:
+            done = False
+            for it in _flat(body):
+                if it["k"] == "call" and it["prog"] == forward[0] and it["kwargs"] is not None and \
+                        (not done or rng.random() < 0.5):
+                    it["kwargs"] = copy.deepcopy(forward[1])
+                    rng.shuffle(it["kwargs"])
+                    done = True
         prog = {"name": name, "target": None, "includes": includes, "comments": rng.random() < 0.4,
                 "body": body}
         fs.files[path] = prog
